@@ -2,7 +2,10 @@ module verif/harness
 
 go 1.18
 
-require github.com/kardiachain/go-kardia v0.0.0
+require (
+	github.com/gogo/protobuf v1.3.2
+	github.com/kardiachain/go-kardia v0.0.0
+)
 
 require (
 	github.com/VictoriaMetrics/fastcache v1.5.7 // indirect
@@ -12,7 +15,6 @@ require (
 	github.com/ethereum/go-ethereum v1.9.15 // indirect
 	github.com/go-kit/kit v0.10.0 // indirect
 	github.com/go-stack/stack v1.8.0 // indirect
-	github.com/gogo/protobuf v1.3.2 // indirect
 	github.com/golang/protobuf v1.4.3 // indirect
 	github.com/golang/snappy v0.0.1 // indirect
 	github.com/gtank/merlin v0.1.1 // indirect
